@@ -6,6 +6,7 @@ package rpc
 // outcomes printed in the canonical form the model prints.  Serves C02 (decode side), C04, C05.
 
 import (
+	"runtime"
 	"errors"
 	"fmt"
 	"io"
@@ -311,8 +312,13 @@ func vDecodeCases(t *testing.T) {
 			continue
 		}
 		vGuard(out, c.kind, c.id, func() {
+			// bytes allocated while decoding this stream (cases run one after the other; the delta also counts the harness'
+			// own small allocations)
+			var m0, m1 runtime.MemStats
+			runtime.ReadMemStats(&m0)
 			outs, consumed, maxAsk := vRunDecode(c)
-			out.printf("dec %s outs=%s consumed=%s maxask=%d", c.id, strings.Join(outs, "|"), strings.Join(consumed, ","), maxAsk)
+			runtime.ReadMemStats(&m1)
+			out.printf("dec %s outs=%s consumed=%s maxask=%d alloc=%d", c.id, strings.Join(outs, "|"), strings.Join(consumed, ","), maxAsk, m1.TotalAlloc-m0.TotalAlloc)
 		})
 	}
 }
